@@ -23,6 +23,7 @@ def run(ctx):
     ctx.do(E.rule_m3)
     ctx.do(n1, ["geometry_tools/representation.py", "geometry_tools/automata/fsa.py"])
     ctx.do(CA.rule_c2, "Representation", scope=ctx.scope(ENTRIES))
+    ctx.do(CA.rule_cls1, "Representation")
     ctx.do(E.rule_m4)
     ctx.do(SI.rule_fw1)
     ctx.do(u1, ENTRIES, min_functions=10)
